@@ -14,7 +14,8 @@
       params = (names_registered names_bound defaults)
     modes:
       (0 name hir)          -> (0 ((name loc moved by) ...)) | (-1 site)       the model of OwnershipChecker::check
-      (1 hir reported)      -> (verdict wf well_scoped ((name loc moved) ...))  Spec.judge; reported = ((name loc) ...) *)
+      (1 hir reported gen)  -> (verdict wf well_scoped ((name loc moved) ...) known)  Spec.judge; reported = ((name loc) ...);
+                               gen = names of the subroutines declared generic, known = Spec.Known_C23 gen hir *)
 From Coq Require Import ZArith List Bool.
 From ErgV Require Import Common.Sx Owner.Model Owner.Spec.
 Import ListNotations.
@@ -100,7 +101,9 @@ Definition run (x : sx) : sx :=
   | SL (SZ 1 :: hir :: reported :: _) =>
     let m := dec_module hir in
     let rep := map (fun r => (dec_str (sx_nth r 0), sx_z (sx_nth r 1))) (sx_l reported) in
-    SL [SZ (judge m rep); sx_bool (wf_module m); sx_bool (well_scoped m); SL (map enc_uam (uams m))]
+    let gen := match x with SL (_ :: _ :: _ :: g :: _) => map dec_str (sx_l g) | _ => [] end in
+    SL [SZ (judge m rep); sx_bool (wf_module m); sx_bool (well_scoped m); SL (map enc_uam (uams m));
+        sx_bool (Known_C23 gen m)]
   | _ => SL [SZ (-2)]
   end.
 
